@@ -288,23 +288,24 @@ def run(run: Run) -> None:
     profile = os.environ.get("VERIF_C03_PROFILE", "structure")  # the env override is a development aid (exploring fenced profiles)
     run.rule = (
         "G2 edit histories in the '%s' profile on import graphs that start acyclic (definition-level edits: change/add/remove functions, classes incl. base-class changes and 'make the local class a subclass of the imported one', constants, aliases, generics, protocols, "
-        "NamedTuple/TypedDict/dataclass/enum, overloads, decorators; body-only errors; remove/restyle imports incl. function-level and TYPE_CHECKING imports; syntax errors and semantic-analysis blockers switched on and removed again; type: ignore on/off; in every second history also star imports and edits that change only `__all__`; a quarter of the uses of class-like definitions mention the class in an annotation only - 20 positions: TypeIs/TypeGuard/Callable/type[]/varargs/tuple/generic argument/TypeVar bound/NamedTuple, TypedDict, dataclass fields/Protocol member/overload item/property/alias/base-class argument/nested def/ClassVar/cast; "
+        "NamedTuple/TypedDict/dataclass/enum, overloads, decorators; body-only errors; remove/restyle imports incl. function-level and TYPE_CHECKING imports; syntax errors and semantic-analysis blockers switched on and removed again; type: ignore on/off; every third history also has star imports and edits that change only `__all__`, every third adds and deletes modules and adds import edges (never closing a cycle); a quarter of the uses of class-like definitions mention the class in an annotation only - 20 positions: TypeIs/TypeGuard/Callable/type[]/varargs/tuple/generic argument/TypeVar bound/NamedTuple, TypedDict, dataclass fields/Protocol member/overload item/property/alias/base-class argument/nested def/ClassVar/cast; "
         "every history ends with a directed tail: all 20 annotation-only positions are added for one class of another module, then up to two definitions used by other modules (that class first) disappear and come back unchanged, up to two local classes passed where an imported class is expected gain that class as a base and lose it again, up to two names used through a star import leave `__all__` and come back) "
         "driven through an in-process dmypy Server (cmd_check after every step) and compared with a fresh `python -m mypy` process on the same files: status, per-file ordered diagnostics, multiset. "
         "Non-trivial: a step answered by a fine-grained update that re-processed targets in at least two modules (the edit propagated)." % profile
     )
-    run.assumptions = ["the daemon is driven in-process through Server.cmd_check (the socket/IPC path is C16's subject)", "after a wrong answer or crash the server is restarted so that findings are independent", "richer profiles (module add/delete/rename, stubs, module<->package, new import edges) are fenced off until their findings saturate - see DESIGN.md"]
+    run.assumptions = ["the daemon is driven in-process through Server.cmd_check (the socket/IPC path is C16's subject)", "after a wrong answer or crash the server is restarted so that findings are independent", "module rename, deletion of submodules of packages, stubs, module<->package and edits that close an import cycle are fenced off (listed findings that do not saturate) - see DESIGN.md"]
     seeds = []
 
     @hypothesis.seed(run.seed)
-    @settings(max_examples=14 if q else 300, database=None, deadline=None, suppress_health_check=list(HealthCheck), phases=[hypothesis.Phase.generate])
+    @settings(max_examples=15 if q else 300, database=None, deadline=None, suppress_health_check=list(HealthCheck), phases=[hypothesis.Phase.generate])
     @given(st.integers(0, 2**40), st.integers(4, 7))
     def draw(s, n):
         seeds.append((s, n))
 
     draw()
-    # every second history also has star imports and __all__ edits
-    work = [(s, n, 6 if q else 25, profile if (i % 2 == 0 or profile != "structure") else "structure-star") for i, (s, n) in enumerate(dict.fromkeys(seeds))]
+    # histories rotate through three profiles: plain, + star imports and __all__ edits, + files/import edges added and removed
+    rot = ["structure", "structure-star", "structure-files"]
+    work = [(s, n, 6 if q else 25, profile if profile != "structure" else rot[i % 3]) for i, (s, n) in enumerate(dict.fromkeys(seeds))]
     k = 0
     for res in pmap(eval_history, work, recycle=2):
         judge(run, res)
